@@ -286,6 +286,10 @@ def showCppOut (op : Cpp.CppOp) (o : Cpp.Out) : String :=
 def cppLine (st : State) (w : List String) : State × String :=
   match w with
   | ["overloads", _] => (st, "ok")      -- which of two equivalent overloads the harness calls
+  | ["init_multi"] =>
+    -- a subclass of Config whose evaluateIncludePath is the harness's multi-path function (include function 1)
+    let (st', o) := Cpp.cppStep st .init
+    (st'.withCfg { st'.cfg with includeFn := 1 }, showCppOut .init o)
   | [b, k, n] =>
     if b == "badalloc" || b == "badalloc_long" then
       -- C13, C++ part: the k-th of n allocation requests fails; the fatal-error handler throws std::bad_alloc
